@@ -59,6 +59,18 @@ def build(rng, tier):
             hs = rng.choice([[], [], [('Range', 'bytes=0-')], [('Range', 'bytes=0-5,7-9')], [('Range', 'bytes=-5')], [('Range', 'bytes=0-40')], [('Range', 'bytes=-30')]])   # the last two: long enough to carry a marker
             m = rng.choice(['GET', 'GET', 'GET', 'HEAD', 'OPTIONS', 'POST'])
             cases.append(K.mk(tree, m, t, hs, entry=rng.choice(['proc', 'preq', 'proc', 'preq', 'aexec', 'aexecl']), kind='traversal'))
+        # the ABSOLUTE file-system path of every file outside the root (and of some inside), behind one, two and three slashes and
+        # behind `/.`: no `..` anywhere - a path join that lets an absolute component replace the working directory reads them
+        absroot = tree.root.decode('utf-8', 'surrogateescape')
+        outside = sorted(p.decode('utf-8', 'surrogateescape') for p in tree.outside_root())
+        for p in outside[:24] + [tree.cwd.decode('utf-8', 'surrogateescape') + '/' + n.decode('utf-8', 'surrogateescape') for n in tree.names[:3]]:
+            ab = absroot + '/' + p
+            for pre in ('/', '', '//', '/./', '/sub//', '/%2F', '/\\'):
+                for hs in ([], [('Range', 'bytes=0-')]):
+                    cases.append(K.mk(tree, 'GET', pre + ab, hs, entry=rng.choice(['proc', 'preq']), kind='absolute-path'))
+        for ab in ('/etc/passwd', '/etc/hostname', '/proc/self/environ', '/proc/self/cmdline'):
+            for pre in ('/', '//'):
+                cases.append(K.mk(tree, 'GET', pre + ab, [], entry=rng.choice(['proc', 'preq']), kind='absolute-path'))
         # existing directories followed by doubled/tripled slashes and one '..' more than they are deep
         # (a guard that counts depth and is fooled by empty segments)
         for d in ('sub', 'sub/deep', 'dir.with.dots', 'emptydir', 'v1.2'):
